@@ -10,6 +10,17 @@ trait MT {
     fn m_ss(&self, a: &str, b: String) -> u32;
     fn m_ll(&self, a: &[u8], b: Vec<u8>) -> u32;
     fn m_n(&self, a: u8) -> u32;
+    fn m_ww(&self, a: W, b: W) -> u32;
+}
+
+/// a type whose `PartialEq` is deliberately irregular: `eq` treats the right-hand 3 as a wildcard (not symmetric) and
+/// `ne` is three-valued (a left-hand 2 is never unequal), so `a != b` is not `!(a == b)` and `a == b` is not `b == a`
+#[derive(Clone, Debug)]
+pub struct W(pub u8);
+impl PartialEq for W {
+    fn eq(&self, o: &W) -> bool { self.0 == o.0 || o.0 == 3 }
+    #[allow(clippy::partialeq_ne_impl)]
+    fn ne(&self, o: &W) -> bool { self.0 != o.0 && self.0 != 2 }
 }
 
 fn accepts<T>(f: impl FnOnce() -> T) -> (bool, String) {
